@@ -1,9 +1,13 @@
 //! C02: Noise transport correspondence. Case / trace format: see coq/C02/Glue.v.
 //!
 //! A real `handshake()` pair is run over an in-memory duplex; afterwards the carrier between the
-//! two `NoiseSocket`s is scripted: the writer side's ciphertext is recorded (with scripted partial
-//! acceptance / Pending), optionally tampered with, and re-delivered to the reader side in the
-//! chunks of the case. Every poll's result and the socket's framing state are logged.
+//! two `NoiseSocket`s is scripted in BOTH directions: what a socket hands to its carrier is
+//! recorded (with scripted partial acceptance / Pending / errors); between the phases of a round
+//! the network takes the complete frames recorded so far, manipulates them as the case says and
+//! appends them to what the other socket's carrier delivers, in the chunks of the case. A case is
+//! a list of rounds (direction, writer calls, manipulations, a schedule of poll_read calls
+//! interleaved with calls on the reading socket's own writer half). Every poll's result, the
+//! socket's framing state, both nonces and the content of the read window are logged.
 use crate::util::*;
 use futures::io::{AsyncRead, AsyncWrite};
 use litep2p::{
@@ -11,11 +15,13 @@ use litep2p::{
     crypto::{
         ed25519::Keypair,
         verif::{handshake, HandshakeTransport, NoiseSocket, VERIF_CONSTS},
+        verif_noise_identity::{VerifNoiseResolver, VERIF_NOISE_PARAMETERS},
     },
 };
 use std::{
     cell::RefCell,
     collections::VecDeque,
+    future::Future,
     io,
     panic::{catch_unwind, AssertUnwindSafe},
     path::Path,
@@ -27,34 +33,94 @@ use std::{
 const MISMATCH: u64 = 999_999_999_999;
 const REP_MAX: u64 = 20000;
 const BIG: u64 = 1_000_000;
+const EXT_TAG: u64 = 9002;
+const FORGE_MAX: u64 = 70_000;
 /// script entries >= SPECIAL: SPECIAL = the carrier call returns Ok(0); SPECIAL + k = Err(kind k)
 const SPECIAL: u64 = 1 << 40;
 
+/// Every stable variant of `std::io::ErrorKind` with its code in cases and traces (4 is not a
+/// kind: the model's "cannot predict"). The model passes carrier errors through by code
+/// (`Model.ecode`, NKINDS = 40); codes outside the table stand for `Other`.
+const KINDS: [(u64, io::ErrorKind); 39] = [
+    (1, io::ErrorKind::UnexpectedEof),
+    (2, io::ErrorKind::InvalidData),
+    (3, io::ErrorKind::PermissionDenied),
+    (5, io::ErrorKind::WriteZero),
+    (6, io::ErrorKind::ConnectionReset),
+    (7, io::ErrorKind::BrokenPipe),
+    (8, io::ErrorKind::TimedOut),
+    (9, io::ErrorKind::Other),
+    (10, io::ErrorKind::NotFound),
+    (11, io::ErrorKind::ConnectionRefused),
+    (12, io::ErrorKind::HostUnreachable),
+    (13, io::ErrorKind::NetworkUnreachable),
+    (14, io::ErrorKind::ConnectionAborted),
+    (15, io::ErrorKind::NotConnected),
+    (16, io::ErrorKind::AddrInUse),
+    (17, io::ErrorKind::AddrNotAvailable),
+    (18, io::ErrorKind::NetworkDown),
+    (19, io::ErrorKind::AlreadyExists),
+    (20, io::ErrorKind::WouldBlock),
+    (21, io::ErrorKind::NotADirectory),
+    (22, io::ErrorKind::IsADirectory),
+    (23, io::ErrorKind::DirectoryNotEmpty),
+    (24, io::ErrorKind::ReadOnlyFilesystem),
+    (25, io::ErrorKind::StaleNetworkFileHandle),
+    (26, io::ErrorKind::InvalidInput),
+    (27, io::ErrorKind::StorageFull),
+    (28, io::ErrorKind::NotSeekable),
+    (29, io::ErrorKind::QuotaExceeded),
+    (30, io::ErrorKind::FileTooLarge),
+    (31, io::ErrorKind::ResourceBusy),
+    (32, io::ErrorKind::ExecutableFileBusy),
+    (33, io::ErrorKind::Deadlock),
+    (34, io::ErrorKind::CrossesDevices),
+    (35, io::ErrorKind::TooManyLinks),
+    (36, io::ErrorKind::InvalidFilename),
+    (37, io::ErrorKind::ArgumentListTooLong),
+    (38, io::ErrorKind::Interrupted),
+    (39, io::ErrorKind::Unsupported),
+    (40, io::ErrorKind::OutOfMemory),
+];
+
 fn kind_of(code: u64) -> io::ErrorKind {
-    match code {
-        6 => io::ErrorKind::ConnectionReset,
-        7 => io::ErrorKind::BrokenPipe,
-        8 => io::ErrorKind::TimedOut,
-        _ => io::ErrorKind::Other,
-    }
+    KINDS.iter().find(|(c, _)| *c == code).map(|(_, k)| *k).unwrap_or(io::ErrorKind::Other)
+}
+
+fn err_code(e: &io::Error) -> u64 {
+    let k = e.kind();
+    KINDS.iter().find(|(_, x)| *x == k).map(|(c, _)| *c).unwrap_or(9)
+}
+
+/// One direction of the scripted carrier: side d writes, side 1-d reads.
+#[derive(Default)]
+struct Dir {
+    wscript: VecDeque<u64>,
+    /// ciphertext handed to the carrier and not yet taken over by the network
+    written: Vec<u8>,
+    /// bytes ever handed to the carrier
+    total_written: usize,
+    closed: bool,
+    /// the most recent write-side carrier call returned Pending
+    wlp: bool,
+    rscript: VecDeque<u64>,
+    /// everything the network has delivered to the reader's carrier
+    wire: Vec<u8>,
+    avail: usize,
+    pulled: usize,
+    rlp: bool,
+    cut: bool,
+    /// frames the network has taken over so far
+    nframes: usize,
 }
 
 #[derive(Default)]
 struct Shared {
-    scripted: bool,
+    /// per side: the carrier follows the scripts (false: plain in-memory duplex for the handshake)
+    scripted: [bool; 2],
     inbox: [VecDeque<u8>; 2],
     wakers: [Option<Waker>; 2],
-    // scripted mode: side 0 writes, side 1 reads
-    wscript: VecDeque<u64>,
-    written: Vec<u8>,
-    rscript: VecDeque<u64>,
-    wire: Vec<u8>,
-    avail: usize,
-    pulled: usize,
-    /// the most recent carrier call of side i returned Pending (reset by the harness before every socket poll)
-    last_pending: [bool; 2],
-    /// the carrier's write half (side 0) has been closed
-    closed: bool,
+    dir: [Dir; 2],
 }
 
 struct Carrier {
@@ -65,8 +131,8 @@ struct Carrier {
 impl AsyncRead for Carrier {
     fn poll_read(self: Pin<&mut Self>, cx: &mut Context<'_>, buf: &mut [u8]) -> Poll<io::Result<usize>> {
         let mut sh = self.sh.borrow_mut();
-        if !sh.scripted {
-            let side = self.side;
+        let side = self.side;
+        if !sh.scripted[side] {
             if sh.inbox[side].is_empty() {
                 sh.wakers[side] = Some(cx.waker().clone());
                 return Poll::Pending;
@@ -77,20 +143,21 @@ impl AsyncRead for Carrier {
             }
             return Poll::Ready(Ok(n));
         }
-        sh.last_pending[1] = false;
-        match sh.rscript.pop_front() {
+        let d = &mut sh.dir[1 - side];
+        d.rlp = false;
+        match d.rscript.pop_front() {
             None => Poll::Ready(Ok(0)),
             Some(0) => {
-                sh.last_pending[1] = true;
+                d.rlp = true;
                 Poll::Pending
             }
             Some(SPECIAL) => Poll::Ready(Ok(0)),
             Some(n) if n > SPECIAL => Poll::Ready(Err(kind_of(n - SPECIAL).into())),
             Some(n) => {
-                let k = (n as usize).min(buf.len()).min(sh.avail - sh.pulled);
-                let p = sh.pulled;
-                buf[..k].copy_from_slice(&sh.wire[p..p + k]);
-                sh.pulled += k;
+                let k = (n as usize).min(buf.len()).min(d.avail - d.pulled);
+                let p = d.pulled;
+                buf[..k].copy_from_slice(&d.wire[p..p + k]);
+                d.pulled += k;
                 Poll::Ready(Ok(k))
             }
         }
@@ -100,45 +167,51 @@ impl AsyncRead for Carrier {
 impl AsyncWrite for Carrier {
     fn poll_write(self: Pin<&mut Self>, _cx: &mut Context<'_>, buf: &[u8]) -> Poll<io::Result<usize>> {
         let mut sh = self.sh.borrow_mut();
-        if !sh.scripted {
-            let other = 1 - self.side;
+        let side = self.side;
+        if !sh.scripted[side] {
+            let other = 1 - side;
             sh.inbox[other].extend(buf.iter().copied());
             if let Some(w) = sh.wakers[other].take() {
                 w.wake();
             }
             return Poll::Ready(Ok(buf.len()));
         }
-        sh.last_pending[0] = false;
-        if sh.closed {
+        let d = &mut sh.dir[side];
+        d.wlp = false;
+        if d.closed {
             return Poll::Ready(Err(io::ErrorKind::BrokenPipe.into()));
         }
-        match sh.wscript.pop_front() {
+        match d.wscript.pop_front() {
             None => {
-                sh.written.extend_from_slice(buf);
+                d.written.extend_from_slice(buf);
+                d.total_written += buf.len();
                 Poll::Ready(Ok(buf.len()))
             }
             Some(0) => {
-                sh.last_pending[0] = true;
+                d.wlp = true;
                 Poll::Pending
             }
             Some(SPECIAL) => Poll::Ready(Ok(0)),
             Some(n) if n > SPECIAL => Poll::Ready(Err(kind_of(n - SPECIAL).into())),
             Some(n) => {
                 let k = (n as usize).min(buf.len());
-                sh.written.extend_from_slice(&buf[..k]);
+                d.written.extend_from_slice(&buf[..k]);
+                d.total_written += k;
                 Poll::Ready(Ok(k))
             }
         }
     }
     fn poll_flush(self: Pin<&mut Self>, _cx: &mut Context<'_>) -> Poll<io::Result<()>> {
         let mut sh = self.sh.borrow_mut();
-        if !sh.scripted || sh.closed {
+        let side = self.side;
+        if !sh.scripted[side] || sh.dir[side].closed {
             return Poll::Ready(Ok(()));
         }
-        sh.last_pending[0] = false;
-        match sh.wscript.pop_front() {
+        let d = &mut sh.dir[side];
+        d.wlp = false;
+        match d.wscript.pop_front() {
             Some(0) => {
-                sh.last_pending[0] = true;
+                d.wlp = true;
                 Poll::Pending
             }
             Some(n) if n > SPECIAL => Poll::Ready(Err(kind_of(n - SPECIAL).into())),
@@ -147,40 +220,37 @@ impl AsyncWrite for Carrier {
     }
     fn poll_close(self: Pin<&mut Self>, _cx: &mut Context<'_>) -> Poll<io::Result<()>> {
         let mut sh = self.sh.borrow_mut();
-        if !sh.scripted || sh.closed {
+        let side = self.side;
+        if !sh.scripted[side] || sh.dir[side].closed {
             return Poll::Ready(Ok(()));
         }
-        sh.last_pending[0] = false;
-        match sh.wscript.pop_front() {
+        let d = &mut sh.dir[side];
+        d.wlp = false;
+        match d.wscript.pop_front() {
             Some(0) => {
-                sh.last_pending[0] = true;
+                d.wlp = true;
                 Poll::Pending
             }
             Some(n) if n > SPECIAL => Poll::Ready(Err(kind_of(n - SPECIAL).into())),
             _ => {
-                sh.closed = true;
+                d.closed = true;
                 Poll::Ready(Ok(()))
             }
         }
     }
 }
 
-fn pat(i: usize) -> u8 {
-    let x = (i as u64).wrapping_mul(0x9E37_79B9_7F4A_7C15);
-    ((x >> 56) as u8) ^ (i as u8)
+/// remember the genuine body of an item whose body is about to be modified
+fn touch(it: &mut (Vec<u8>, Option<usize>, Option<Vec<u8>>)) {
+    if it.2.is_none() {
+        it.2 = Some(it.0[2..].to_vec());
+    }
 }
 
-fn err_code(e: &io::Error) -> u64 {
-    match e.kind() {
-        io::ErrorKind::UnexpectedEof => 1,
-        io::ErrorKind::InvalidData => 2,
-        io::ErrorKind::PermissionDenied => 3,
-        io::ErrorKind::WriteZero => 5,
-        io::ErrorKind::ConnectionReset => 6,
-        io::ErrorKind::BrokenPipe => 7,
-        io::ErrorKind::TimedOut => 8,
-        _ => 9,
-    }
+/// position-dependent content of the plaintext stream of direction d
+fn pat(d: usize, i: usize) -> u8 {
+    let x = (i as u64).wrapping_mul(0x9E37_79B9_7F4A_7C15);
+    ((x >> 56) as u8) ^ (i as u8) ^ (if d == 0 { 0 } else { 0xa7 })
 }
 
 /// count-prefixed list reader over a case
@@ -201,8 +271,16 @@ impl<'a> Cur<'a> {
         }
         Some(n)
     }
+    fn list(&mut self) -> Option<Vec<u64>> {
+        let mut v = Vec::new();
+        for _ in 0..self.count()? {
+            v.push(self.n()?);
+        }
+        Some(v)
+    }
 }
 
+#[derive(Clone)]
 enum WOp {
     Write(u64),
     Flush,
@@ -210,76 +288,149 @@ enum WOp {
     WriteV(Vec<u64>),
 }
 
+enum SOp {
+    Read(u64),
+    W(WOp),
+}
+
+struct Round {
+    dir: usize,
+    wops: Vec<WOp>,
+    wsc: Vec<u64>,
+    tampers: Vec<[u64; 4]>,
+    sched: Vec<SOp>,
+    rsc: Vec<u64>,
+    xsc: Vec<u64>,
+}
+
 struct Case {
     f: u64,
     wb: u64,
-    wops: Vec<WOp>,
-    wsc: Vec<u64>,
-    tamper: [u64; 4],
-    reads: Vec<(u64, u64)>,
-    rsc: Vec<u64>,
+    early: bool,
+    rounds: Vec<Round>,
+}
+
+fn parse_wop(k: &mut Cur) -> Option<WOp> {
+    Some(match k.n()? {
+        0 => WOp::Write(k.n()?),
+        1 => WOp::Flush,
+        2 => WOp::Close,
+        3 => WOp::WriteV(k.list()?),
+        _ => return None,
+    })
+}
+
+fn parse_tamper(k: &mut Cur) -> Option<[u64; 4]> {
+    let t = [k.n()?, k.n()?, k.n()?, k.n()?];
+    if t[0] > 11 {
+        return None;
+    }
+    Some(t)
 }
 
 fn parse_case(c: &[u64]) -> Option<Case> {
-    let mut k = Cur { c, i: 0 };
+    let ext = c.first() == Some(&EXT_TAG);
+    let mut k = Cur { c, i: if ext { 1 } else { 0 } };
     let f = k.n()?;
     let wb = k.n()?;
-    let mut wops = Vec::new();
-    for _ in 0..k.count()? {
-        match k.n()? {
-            0 => wops.push(WOp::Write(k.n()?)),
-            1 => wops.push(WOp::Flush),
-            2 => wops.push(WOp::Close),
-            3 => {
-                let mut v = Vec::new();
-                for _ in 0..k.count()? {
-                    v.push(k.n()?);
-                }
-                wops.push(WOp::WriteV(v));
-            }
-            _ => return None,
+    let mut rounds = Vec::new();
+    let mut early = false;
+    if ext {
+        let e = k.n()?;
+        if e > 1 {
+            return None;
         }
-    }
-    let mut wsc = Vec::new();
-    for _ in 0..k.count()? {
-        wsc.push(k.n()?);
-    }
-    let tamper = [k.n()?, k.n()?, k.n()?, k.n()?];
-    if tamper[0] > 5 {
-        return None;
-    }
-    let mut reads = Vec::new();
-    for _ in 0..k.count()? {
-        reads.push((k.n()?, k.n()?));
-    }
-    let mut rsc = Vec::new();
-    for _ in 0..k.count()? {
-        rsc.push(k.n()?);
+        early = e == 1;
+        for _ in 0..k.count()? {
+            let dir = k.n()?;
+            let mut wops = Vec::new();
+            for _ in 0..k.count()? {
+                wops.push(parse_wop(&mut k)?);
+            }
+            let wsc = k.list()?;
+            let mut tampers = Vec::new();
+            for _ in 0..k.count()? {
+                tampers.push(parse_tamper(&mut k)?);
+            }
+            let mut sched = Vec::new();
+            for _ in 0..k.count()? {
+                match k.n()? {
+                    0 => {
+                        let b = k.n()?;
+                        let rep = k.n()?.min(REP_MAX);
+                        for _ in 0..rep {
+                            sched.push(SOp::Read(b));
+                        }
+                    }
+                    1 => sched.push(SOp::W(parse_wop(&mut k)?)),
+                    _ => return None,
+                }
+            }
+            let rsc = k.list()?;
+            let xsc = k.list()?;
+            if dir > 1 {
+                return None;
+            }
+            rounds.push(Round { dir: dir as usize, wops, wsc, tampers, sched, rsc, xsc });
+        }
+    } else {
+        let mut wops = Vec::new();
+        for _ in 0..k.count()? {
+            wops.push(parse_wop(&mut k)?);
+        }
+        let wsc = k.list()?;
+        let t = parse_tamper(&mut k)?;
+        let mut sched = Vec::new();
+        for _ in 0..k.count()? {
+            let b = k.n()?;
+            let rep = k.n()?.min(REP_MAX);
+            for _ in 0..rep {
+                sched.push(SOp::Read(b));
+            }
+        }
+        let rsc = k.list()?;
+        rounds.push(Round { dir: 0, wops, wsc, tampers: vec![t], sched, rsc, xsc: Vec::new() });
     }
     if k.i != c.len() {
         return None;
     }
     // resource guard (the model accepts such cases; the generator never produces them)
     let too_long = |l: &u64| *l > 4_000_000;
+    let wop_big = |o: &WOp| match o {
+        WOp::Write(l) => too_long(l),
+        WOp::WriteV(v) => v.iter().any(too_long),
+        _ => false,
+    };
     if f > 8
         || wb > 8
-        || wops.iter().any(|o| match o {
-            WOp::Write(l) => too_long(l),
-            WOp::WriteV(v) => v.iter().any(too_long),
-            _ => false,
+        || rounds.len() > 64
+        || rounds.iter().any(|r| {
+            r.wops.iter().any(wop_big)
+                || r.tampers.len() > 64
+                || r.sched.len() > 100_000
+                || r.sched.iter().any(|s| match s {
+                    SOp::Read(b) => *b > 4_000_000,
+                    SOp::W(o) => wop_big(o),
+                })
         })
-        || reads.iter().any(|r| r.0 > 4_000_000)
     {
         return None;
     }
-    Some(Case { f, wb, wops, wsc, tamper, reads, rsc })
+    Some(Case { f, wb, early, rounds })
 }
 
-fn new_pair(
-    rt: &tokio::runtime::Runtime,
-    f: usize,
-    wb: usize,
-) -> (NoiseSocket<Carrier>, NoiseSocket<Carrier>, Rc<RefCell<Shared>>) {
+type Sock = NoiseSocket<Carrier>;
+
+/// both variants of the enum (it only labels log lines)
+fn transport_of(f: usize, wb: usize) -> HandshakeTransport {
+    if (f + wb) % 2 == 0 {
+        HandshakeTransport::Tcp
+    } else {
+        HandshakeTransport::WebSocket
+    }
+}
+
+fn pair_plain(rt: &tokio::runtime::Runtime, f: usize, wb: usize) -> (Sock, Sock, Rc<RefCell<Shared>>) {
     let sh = Rc::new(RefCell::new(Shared::default()));
     let c0 = Carrier { side: 0, sh: sh.clone() };
     let c1 = Carrier { side: 1, sh: sh.clone() };
@@ -288,265 +439,552 @@ fn new_pair(
     let t = std::time::Duration::from_secs(20);
     let (a, b) = rt.block_on(async {
         tokio::join!(
-            handshake(c0, &k0, Role::Dialer, f, wb, t, HandshakeTransport::Tcp),
-            handshake(c1, &k1, Role::Listener, f, wb, t, HandshakeTransport::Tcp)
+            handshake(c0, &k0, Role::Dialer, f, wb, t, transport_of(f, wb)),
+            handshake(c1, &k1, Role::Listener, f, wb, t, transport_of(f, wb))
         )
     });
     let (a, _) = a.expect("handshake");
     let (b, _) = b.expect("handshake");
-    sh.borrow_mut().scripted = true;
     (a, b, sh)
 }
 
-/// one writer-side record: result(2) write_state(3) bytes-with-carrier lastpending carrier-closed
-fn wrec(
-    res: Result<Poll<io::Result<usize>>, ()>,
-    a: &NoiseSocket<Carrier>,
-    sh: &Rc<RefCell<Shared>>,
-) -> ([u64; 8], bool) {
-    match res {
-        Err(()) => ([3, 0, 0, 0, 0, 0, 0, 0], false),
-        Ok(p) => {
-            let st = a.verif_write_state();
-            let (t, v) = match p {
-                Poll::Ready(Ok(n)) => (0, n as u64),
-                Poll::Pending => (1, 0),
-                Poll::Ready(Err(e)) => (2, err_code(&e)),
-            };
-            let s = sh.borrow();
-            (
-                [
-                    t,
-                    v,
-                    st[0] as u64,
-                    st[1] as u64,
-                    st[2] as u64,
-                    s.written.len() as u64,
-                    s.last_pending[0] as u64,
-                    s.closed as u64,
-                ],
-                true,
-            )
+/// snow's limit on the size of a Noise message, measured on a transport state built exactly like
+/// litep2p's (same parameters, same resolver): the largest payload + 16 that write_message accepts
+fn snow_max() -> u64 {
+    thread_local! { static V: std::cell::Cell<u64> = std::cell::Cell::new(0); }
+    let v = V.with(|v| v.get());
+    if v != 0 {
+        return v;
+    }
+    let mk = || snow::Builder::with_resolver(VERIF_NOISE_PARAMETERS.parse().expect("noise parameters"), Box::new(VerifNoiseResolver));
+    let ka = mk().generate_keypair().unwrap();
+    let kb = mk().generate_keypair().unwrap();
+    let mut a = mk().local_private_key(&ka.private).build_initiator().unwrap();
+    let mut b = mk().local_private_key(&kb.private).build_responder().unwrap();
+    let mut m = vec![0u8; 70_000];
+    let mut o = vec![0u8; 70_000];
+    let n = a.write_message(&[], &mut m).unwrap();
+    b.read_message(&m[..n], &mut o).unwrap();
+    let n = b.write_message(&[], &mut m).unwrap();
+    a.read_message(&m[..n], &mut o).unwrap();
+    let n = a.write_message(&[], &mut m).unwrap();
+    b.read_message(&m[..n], &mut o).unwrap();
+    let mut a = a.into_transport_mode().unwrap();
+    let payload = vec![0u8; 70_000];
+    let mut best = 0u64;
+    for l in 65_400usize..65_700 {
+        if let Ok(n) = a.write_message(&payload[..l], &mut m) {
+            best = best.max(n as u64);
         }
+    }
+    V.with(|v| v.set(best));
+    best
+}
+
+struct Run<'a> {
+    rt: &'a tokio::runtime::Runtime,
+    sock: [Option<Sock>; 2],
+    sh: Rc<RefCell<Shared>>,
+    stream: [Vec<u8>; 2],
+    accepted: [usize; 2],
+    delivered: [usize; 2],
+    out: Vec<u64>,
+}
+
+impl<'a> Run<'a> {
+    /// one call on the writer half of side s; the record, and false if it panicked
+    fn wop(&mut self, s: usize, op: &WOp) -> ([u64; 9], bool) {
+        let waker = futures::task::noop_waker();
+        let mut cx = Context::from_waker(&waker);
+        self.sh.borrow_mut().dir[s].wlp = false;
+        let acc = self.accepted[s];
+        let stream = &self.stream[s];
+        let a = self.sock[s].as_mut().unwrap();
+        let unit = |p: Poll<io::Result<()>>| p.map(|r| r.map(|_| 0usize));
+        let res = match op {
+            WOp::Write(len) => {
+                let buf = &stream[acc..acc + *len as usize];
+                catch_unwind(AssertUnwindSafe(|| Pin::new(&mut *a).poll_write(&mut cx, buf))).map_err(|_| ())
+            }
+            WOp::WriteV(lens) => {
+                let mut slices = Vec::new();
+                let mut p = acc;
+                for l in lens.iter() {
+                    slices.push(io::IoSlice::new(&stream[p..p + *l as usize]));
+                    p += *l as usize;
+                }
+                catch_unwind(AssertUnwindSafe(|| Pin::new(&mut *a).poll_write_vectored(&mut cx, &slices)))
+                    .map_err(|_| ())
+            }
+            WOp::Flush => catch_unwind(AssertUnwindSafe(|| Pin::new(&mut *a).poll_flush(&mut cx)))
+                .map(unit)
+                .map_err(|_| ()),
+            WOp::Close => catch_unwind(AssertUnwindSafe(|| Pin::new(&mut *a).poll_close(&mut cx)))
+                .map(unit)
+                .map_err(|_| ()),
+        };
+        if let (WOp::Write(_) | WOp::WriteV(_), Ok(Poll::Ready(Ok(n)))) = (op, &res) {
+            self.accepted[s] += *n;
+        }
+        match res {
+            Err(()) => ([3, 0, 0, 0, 0, 0, 0, 0, 0], false),
+            Ok(p) => {
+                let a = self.sock[s].as_ref().unwrap();
+                let st = a.verif_write_state();
+                let (t, v) = match p {
+                    Poll::Ready(Ok(n)) => (0, n as u64),
+                    Poll::Pending => (1, 0),
+                    Poll::Ready(Err(e)) => (2, err_code(&e)),
+                };
+                let sh = self.sh.borrow();
+                let d = &sh.dir[s];
+                (
+                    [
+                        t,
+                        v,
+                        st[0] as u64,
+                        st[1] as u64,
+                        st[2] as u64,
+                        d.total_written as u64,
+                        d.wlp as u64,
+                        d.closed as u64,
+                        a.verif_nonces()[0],
+                    ],
+                    true,
+                )
+            }
+        }
+    }
+
+    /// one poll_read with a buffer of bl bytes on side s (direction 1-s); None if it panicked
+    fn rop(&mut self, s: usize, bl: usize, buf: &mut Vec<u8>) -> Option<[u64; 14]> {
+        let waker = futures::task::noop_waker();
+        let mut cx = Context::from_waker(&waker);
+        let d = 1 - s;
+        if buf.len() < bl {
+            buf.resize(bl, 0);
+        }
+        self.sh.borrow_mut().dir[d].rlp = false;
+        let b = self.sock[s].as_mut().unwrap();
+        let res = catch_unwind(AssertUnwindSafe(|| Pin::new(&mut *b).poll_read(&mut cx, &mut buf[..bl])));
+        let p = res.ok()?;
+        let b = self.sock[s].as_ref().unwrap();
+        let st = b.verif_read_state();
+        let (t, x, y) = match p {
+            Poll::Ready(Ok(n)) => {
+                let del = self.delivered[d];
+                let good = n <= bl && del + n <= self.accepted[d] && buf[..n] == self.stream[d][del..del + n];
+                let pos = if good { del as u64 } else { MISMATCH };
+                self.delivered[d] += n;
+                (0, n as u64, pos)
+            }
+            Poll::Pending => (1, 0, 0),
+            Poll::Ready(Err(e)) => (2, err_code(&e), 0),
+        };
+        let sh = self.sh.borrow();
+        let dd = &sh.dir[d];
+        let win = b.verif_read_window();
+        let win_ok = win.len() <= dd.pulled && win == &dd.wire[dd.pulled - win.len()..dd.pulled];
+        let mut r = [t, x, y, 0, 0, 0, 0, 0, 0, 0, dd.pulled as u64, dd.rlp as u64, b.verif_nonces()[1], win_ok as u64];
+        for (j, v) in st.iter().enumerate() {
+            r[3 + j] = *v as u64;
+        }
+        Some(r)
+    }
+
+    /// a same-length ciphertext body made by another session with the same nonce
+    fn foreign_body(&self, nonce: usize, blen: usize, rng: &mut Rng) -> Vec<u8> {
+        if blen < 17 || nonce > 400 {
+            return (0..blen).map(|_| rng.next() as u8).collect();
+        }
+        let (mut a, _b, sh) = pair_plain(self.rt, 1, 2);
+        let waker = futures::task::noop_waker();
+        let mut cx = Context::from_waker(&waker);
+        let data = vec![0x5au8; blen - 16];
+        for _ in 0..nonce {
+            let _ = Pin::new(&mut a).poll_write(&mut cx, &data[..1]);
+            let _ = Pin::new(&mut a).poll_flush(&mut cx);
+        }
+        sh.borrow_mut().inbox[1].clear();
+        let _ = Pin::new(&mut a).poll_write(&mut cx, &data);
+        let _ = Pin::new(&mut a).poll_flush(&mut cx);
+        let v: Vec<u8> = sh.borrow_mut().inbox[1].drain(..).collect();
+        if v.len() == blen + 2 {
+            v[2..].to_vec()
+        } else {
+            (0..blen).map(|_| rng.next() as u8).collect()
+        }
+    }
+
+    /// writer calls of the round, final flush, the network. false = the run ended (panic)
+    fn phase_write(&mut self, rd: &Round) -> bool {
+        let d = rd.dir;
+        self.sh.borrow_mut().dir[d].wscript = rd.wsc.iter().copied().collect();
+        let mut recs: Vec<[u64; 9]> = Vec::new();
+        let mut ok = true;
+        for op in rd.wops.iter() {
+            let (r, cont) = self.wop(d, op);
+            recs.push(r);
+            if !cont {
+                ok = false;
+                break;
+            }
+        }
+        self.out.push(recs.len() as u64);
+        for r in recs.iter() {
+            self.out.extend(r);
+        }
+        self.out.push(ok as u64);
+        if !ok {
+            return false;
+        }
+        // final flush with an all-accepting carrier
+        self.sh.borrow_mut().dir[d].wscript.clear();
+        let (r, cont) = self.wop(d, &WOp::Flush);
+        self.out.extend(r);
+        if !cont {
+            return false;
+        }
+        // ---- the network: complete frames recorded so far, manipulated
+        let mut sh = self.sh.borrow_mut();
+        let dir = &mut sh.dir[d];
+        let rec = std::mem::take(&mut dir.written);
+        // (bytes, index of the genuine frame, the genuine body once the model counts the body as modified)
+        let mut items: Vec<(Vec<u8>, Option<usize>, Option<Vec<u8>>)> = Vec::new();
+        let mut p = 0usize;
+        while p + 2 <= rec.len() {
+            let h = ((rec[p] as usize) << 8) | rec[p + 1] as usize;
+            if p + 2 + h > rec.len() {
+                break;
+            }
+            items.push((rec[p..p + 2 + h].to_vec(), Some(dir.nframes + items.len()), None));
+            p += 2 + h;
+        }
+        dir.written = rec[p..].to_vec();
+        let leftover = !dir.written.is_empty();
+        dir.nframes += items.len();
+        self.out.push(items.len() as u64 + leftover as u64);
+        for it in items.iter() {
+            self.out.push((it.0.len() - 2) as u64);
+        }
+        if leftover {
+            self.out.push(0);
+        }
+        drop(sh);
+        let mut rng = Rng::new(0x5eed ^ items.len() as u64);
+        let mut trunc: Option<usize> = None;
+        for t in rd.tampers.iter() {
+            let [tt, ta, tb, tc] = *t;
+            let i = ta.min(usize::MAX as u64) as usize;
+            let j = tb.min(usize::MAX as u64) as usize;
+            match tt {
+                1 => {
+                    let m = (tc & 0xff) as u8;
+                    if i < items.len() && m != 0 && j < items[i].0.len() {
+                        if j >= 2 {
+                            touch(&mut items[i]);
+                        }
+                        items[i].0[j] ^= m;
+                    }
+                }
+                2 => {
+                    if i < items.len() {
+                        items.remove(i);
+                    }
+                }
+                3 => {
+                    if i < items.len() {
+                        let c = items[i].clone();
+                        items.insert(i + 1, c);
+                    }
+                }
+                4 => {
+                    if i < items.len() && i + 1 < items.len() {
+                        items.swap(i, i + 1);
+                    }
+                }
+                5 => trunc = Some(trunc.map_or(i, |q| q.min(i))),
+                6 => {
+                    if i < items.len() {
+                        let it = items.remove(i);
+                        let at = j.min(items.len());
+                        items.insert(at, it);
+                    }
+                }
+                7 => {
+                    if i < items.len() {
+                        let it = items[i].clone();
+                        let at = j.min(items.len());
+                        items.insert(at, it);
+                    }
+                }
+                8 => {
+                    let h = (tb % 65536) as usize;
+                    let bl = tc.min(FORGE_MAX) as usize;
+                    let mut v = vec![(h >> 8) as u8, (h & 0xff) as u8];
+                    v.extend((0..bl).map(|_| rng.next() as u8));
+                    let at = i.min(items.len());
+                    items.insert(at, (v, None, None));
+                }
+                9 => {
+                    if i < items.len() {
+                        // strictly inside the body (never at its end: the first `header` bytes would
+                        // still be the ciphertext)
+                        let bl = items[i].0.len() - 2;
+                        touch(&mut items[i]);
+                        items[i].0.insert(2 + bl / 2, rng.next() as u8);
+                    }
+                }
+                10 => {
+                    if i < items.len() && items[i].0.len() > 2 {
+                        touch(&mut items[i]);
+                        items[i].0.remove(2);
+                    }
+                }
+                11 => {
+                    if i < items.len() {
+                        let bl = items[i].0.len() - 2;
+                        let nonce = items[i].1.unwrap_or(i);
+                        let body = self.foreign_body(nonce, bl, &mut rng);
+                        touch(&mut items[i]);
+                        items[i].0.truncate(2);
+                        items[i].0.extend(body);
+                    }
+                }
+                _ => {}
+            }
+            // the model counts a modified body as "not a ciphertext" for good; two manipulations
+            // that undo each other (the same flip twice, a byte inserted and removed again) must
+            // therefore not give the genuine body back
+            for it in items.iter_mut() {
+                if let Some(orig) = &it.2 {
+                    if it.0.len() > 2 && it.0[2..] == orig[..] {
+                        let last = it.0.len() - 1;
+                        it.0[last] ^= 1;
+                    }
+                }
+            }
+        }
+        let fresh: Vec<u8> = items.iter().flat_map(|it| it.0.iter().copied()).collect();
+        let mut sh = self.sh.borrow_mut();
+        let dir = &mut sh.dir[d];
+        if !dir.cut {
+            let base = dir.wire.len();
+            dir.avail = base + trunc.map(|t| t.min(fresh.len())).unwrap_or(fresh.len());
+            dir.wire.extend(fresh);
+            dir.cut = trunc.is_some();
+        }
+        self.out.push(dir.avail as u64);
+        true
+    }
+
+    /// the read phase: poll_read calls on the reading side interleaved with calls on its writer half
+    fn phase_read(&mut self, rd: &Round) -> bool {
+        let d = rd.dir;
+        let s = 1 - d;
+        {
+            let mut sh = self.sh.borrow_mut();
+            sh.dir[d].rscript = rd.rsc.iter().copied().collect();
+            sh.dir[s].wscript = rd.xsc.iter().copied().collect();
+        }
+        let mut buf: Vec<u8> = Vec::new();
+        let mut recs: Vec<Vec<u64>> = Vec::new();
+        let mut ok = true;
+        for op in rd.sched.iter() {
+            match op {
+                SOp::Read(bl) => match self.rop(s, *bl as usize, &mut buf) {
+                    Some(r) => {
+                        let mut v = vec![0u64];
+                        v.extend(r);
+                        recs.push(v);
+                    }
+                    None => {
+                        let mut v = vec![0u64, 3];
+                        v.extend([0u64; 13]);
+                        recs.push(v);
+                        ok = false;
+                        break;
+                    }
+                },
+                SOp::W(o) => {
+                    let (r, cont) = self.wop(s, o);
+                    let mut v = vec![1u64];
+                    v.extend(r);
+                    recs.push(v);
+                    if !cont {
+                        ok = false;
+                        break;
+                    }
+                }
+            }
+        }
+        self.out.push(recs.len() as u64);
+        for r in recs.iter() {
+            self.out.extend(r);
+        }
+        self.out.push(ok as u64);
+        ok
     }
 }
 
 fn run_case(rt: &tokio::runtime::Runtime, c: &[u64]) -> Option<Vec<u64>> {
     let case = parse_case(c)?;
-    let (mut a, mut b, sh) = new_pair(rt, case.f as usize, case.wb as usize);
+    let (f, wb) = (case.f as usize, case.wb as usize);
+    let early = case.early && case.rounds.first().map(|r| r.dir == 0).unwrap_or(false);
+
+    // plaintext streams: everything side s is ever asked to write
+    let mut total_req = [0usize; 2];
+    let wlen = |o: &WOp| match o {
+        WOp::Write(l) => *l as usize,
+        WOp::WriteV(v) => v.iter().map(|l| *l as usize).sum(),
+        _ => 0,
+    };
+    for rd in case.rounds.iter() {
+        total_req[rd.dir] += rd.wops.iter().map(wlen).sum::<usize>();
+        total_req[1 - rd.dir] += rd
+            .sched
+            .iter()
+            .map(|s| match s {
+                SOp::W(o) => wlen(o),
+                _ => 0,
+            })
+            .sum::<usize>();
+    }
+    let stream = [
+        (0..total_req[0]).map(|i| pat(0, i)).collect::<Vec<u8>>(),
+        (0..total_req[1]).map(|i| pat(1, i)).collect::<Vec<u8>>(),
+    ];
+
+    let header = |a: &Sock, b: &Sock| {
+        let mut out = vec![1u64];
+        out.extend(VERIF_CONSTS[..3].iter().map(|x| *x as u64));
+        out.push(b.verif_buffer_sizes()[0] as u64);
+        out.push(a.verif_buffer_sizes()[1] as u64);
+        out.push(snow_max());
+        out.push(b.verif_buffer_sizes()[2] as u64);
+        out
+    };
+
+    if !early {
+        let (a, b, sh) = pair_plain(rt, f, wb);
+        sh.borrow_mut().scripted = [true, true];
+        let out = header(&a, &b);
+        let mut run = Run { rt, sock: [Some(a), Some(b)], sh, stream, accepted: [0; 2], delivered: [0; 2], out };
+        for rd in case.rounds.iter() {
+            if !run.phase_write(rd) || !run.phase_read(rd) {
+                break;
+            }
+        }
+        return Some(run.out);
+    }
+
+    // ---- early data: the dialer finishes its handshake, writes and flushes the first round, and
+    // the (manipulated) ciphertext lies behind handshake message 3 in the listener's carrier before
+    // the listener's handshake() has read message 3
+    let sh = Rc::new(RefCell::new(Shared::default()));
+    let c0 = Carrier { side: 0, sh: sh.clone() };
+    let c1 = Carrier { side: 1, sh: sh.clone() };
+    let k0 = Keypair::generate();
+    let k1 = Keypair::generate();
+    let t = std::time::Duration::from_secs(20);
+    let _guard = rt.enter();
     let waker = futures::task::noop_waker();
     let mut cx = Context::from_waker(&waker);
-
-    let mut out = vec![1u64];
-    out.extend(VERIF_CONSTS[..3].iter().map(|x| *x as u64));
-    out.push(b.verif_buffer_sizes()[0] as u64);
-    out.push(a.verif_buffer_sizes()[1] as u64);
-
-    // ---- writer
-    let total_req: usize = case
-        .wops
-        .iter()
-        .map(|o| match o {
-            WOp::Write(l) => *l as usize,
-            WOp::WriteV(v) => v.iter().map(|l| *l as usize).sum(),
-            _ => 0,
-        })
-        .sum();
-    let stream: Vec<u8> = (0..total_req).map(pat).collect();
-    sh.borrow_mut().wscript = case.wsc.iter().copied().collect();
-    let mut accepted = 0usize;
-    let mut recs: Vec<[u64; 8]> = Vec::new();
-    let mut ok = true;
-    for op in case.wops.iter() {
-        sh.borrow_mut().last_pending[0] = false;
-        let unit = |p: Poll<io::Result<()>>| p.map(|r| r.map(|_| 0usize));
-        let res = match op {
-            WOp::Write(len) => {
-                let buf = &stream[accepted..accepted + *len as usize];
-                catch_unwind(AssertUnwindSafe(|| Pin::new(&mut a).poll_write(&mut cx, buf))).map_err(|_| ())
-            }
-            WOp::WriteV(lens) => {
-                let mut slices = Vec::new();
-                let mut p = accepted;
-                for l in lens.iter() {
-                    slices.push(io::IoSlice::new(&stream[p..p + *l as usize]));
-                    p += *l as usize;
-                }
-                catch_unwind(AssertUnwindSafe(|| Pin::new(&mut a).poll_write_vectored(&mut cx, &slices)))
-                    .map_err(|_| ())
-            }
-            WOp::Flush => catch_unwind(AssertUnwindSafe(|| Pin::new(&mut a).poll_flush(&mut cx)))
-                .map(unit)
-                .map_err(|_| ()),
-            WOp::Close => catch_unwind(AssertUnwindSafe(|| Pin::new(&mut a).poll_close(&mut cx)))
-                .map(unit)
-                .map_err(|_| ()),
-        };
-        if let (WOp::Write(_) | WOp::WriteV(_), Ok(Poll::Ready(Ok(n)))) = (op, &res) {
-            accepted += *n;
-        }
-        let (r, cont) = wrec(res, &a, &sh);
-        recs.push(r);
-        if !cont {
-            ok = false;
+    let mut fa = Box::pin(handshake(c0, &k0, Role::Dialer, f, wb, t, transport_of(f, wb)));
+    let mut fb = Box::pin(handshake(c1, &k1, Role::Listener, f, wb, t, transport_of(f, wb)));
+    let mut a: Option<Sock> = None;
+    for _ in 0..16 {
+        if let Poll::Ready(r) = fa.as_mut().poll(&mut cx) {
+            a = Some(r.expect("handshake").0);
             break;
         }
+        if let Poll::Ready(_) = fb.as_mut().poll(&mut cx) {
+            panic!("listener finished before the dialer");
+        }
     }
-    out.push(recs.len() as u64);
-    for r in recs.iter() {
-        out.extend(r);
-    }
-    out.push(ok as u64);
-    if !ok {
-        return Some(out);
-    }
-    // final flush with an all-accepting carrier
+    let a = a.expect("dialer handshake");
+    drop(fa);
+    sh.borrow_mut().scripted[0] = true;
+    let mut run = Run { rt, sock: [Some(a), None], sh: sh.clone(), stream, accepted: [0; 2], delivered: [0; 2], out: Vec::new() };
+    let rd0 = &case.rounds[0];
+    let cont = run.phase_write(rd0);
+    // put what the network delivers behind message 3
     {
         let mut s = sh.borrow_mut();
-        s.wscript.clear();
-        s.last_pending[0] = false;
+        let av = s.dir[0].avail;
+        let bytes: Vec<u8> = s.dir[0].wire[..av].to_vec();
+        s.inbox[1].extend(bytes);
     }
-    let res = catch_unwind(AssertUnwindSafe(|| Pin::new(&mut a).poll_flush(&mut cx)))
-        .map(|p| p.map(|r| r.map(|_| 0usize)))
-        .map_err(|_| ());
-    let (r, cont) = wrec(res, &a, &sh);
-    out.extend(r);
-    if !cont {
-        // the trace format needs the rest: an empty wire, no reads
-        out.extend([0, 0, 0]);
-        return Some(out);
-    }
-
-    // ---- the wire: split into frames, tamper
-    let wire = std::mem::take(&mut sh.borrow_mut().written);
-    let mut items: Vec<Vec<u8>> = Vec::new();
-    let mut p = 0usize;
-    let mut leftover = false;
-    while p < wire.len() {
-        if p + 2 > wire.len() {
-            leftover = true;
+    let mut b: Option<Sock> = None;
+    for _ in 0..16 {
+        if let Poll::Ready(r) = fb.as_mut().poll(&mut cx) {
+            b = Some(r.expect("handshake").0);
             break;
         }
-        let h = ((wire[p] as usize) << 8) | wire[p + 1] as usize;
-        if p + 2 + h > wire.len() {
-            leftover = true;
-            break;
-        }
-        items.push(wire[p..p + 2 + h].to_vec());
-        p += 2 + h;
     }
-    out.push(items.len() as u64 + leftover as u64);
-    for it in items.iter() {
-        out.push((it.len() - 2) as u64);
-    }
-    if leftover {
-        out.push(0);
-    }
-    let [tt, ta, tb, tc] = case.tamper;
-    let i = ta as usize;
-    let mut trunc: Option<usize> = None;
-    match tt {
-        1 => {
-            let m = (tc & 0xff) as u8;
-            if i < items.len() && m != 0 && (tb as usize) < items[i].len() {
-                items[i][tb as usize] ^= m;
-            }
-        }
-        2 => {
-            if i < items.len() {
-                items.remove(i);
-            }
-        }
-        3 => {
-            if i < items.len() {
-                let d = items[i].clone();
-                items.insert(i + 1, d);
-            }
-        }
-        4 => {
-            if i + 1 < items.len() {
-                items.swap(i, i + 1);
-            }
-        }
-        5 => trunc = Some(ta as usize),
-        _ => {}
-    }
-    let wire2: Vec<u8> = items.concat();
-    let avail = trunc.map(|t| t.min(wire2.len())).unwrap_or(wire2.len());
-    out.push(avail as u64);
+    let b = b.expect("listener handshake");
+    drop(fb);
     {
+        // whatever the handshake left in the carrier is what the transport will read
         let mut s = sh.borrow_mut();
-        s.wire = wire2;
-        s.avail = avail;
-        s.pulled = 0;
-        s.rscript = case.rsc.iter().copied().collect();
+        let rest: Vec<u8> = s.inbox[1].drain(..).collect();
+        s.dir[0].avail = rest.len();
+        s.dir[0].wire = rest;
+        s.dir[0].pulled = 0;
+        s.scripted[1] = true;
     }
-
-    // ---- reader: polled on after errors and EOF; only a panic ends the run
-    let maxbuf = case.reads.iter().map(|r| r.0 as usize).max().unwrap_or(0);
-    let mut buf = vec![0u8; maxbuf];
-    let mut delivered = 0usize;
-    let mut rrecs: Vec<[u64; 12]> = Vec::new();
-    'outer: for (bl, rep) in case.reads.iter() {
-        for _ in 0..(*rep).min(REP_MAX) {
-            let bl = *bl as usize;
-            sh.borrow_mut().last_pending[1] = false;
-            let res = catch_unwind(AssertUnwindSafe(|| Pin::new(&mut b).poll_read(&mut cx, &mut buf[..bl])));
-            let (pulled, lp) = {
-                let s = sh.borrow();
-                (s.pulled as u64, s.last_pending[1] as u64)
-            };
-            match res {
-                Err(_) => {
-                    rrecs.push([3, 0, 0, 0, 0, 0, 0, 0, 0, 0, 0, 0]);
-                    break 'outer;
-                }
-                Ok(p) => {
-                    let st = b.verif_read_state();
-                    let (t, x, y) = match p {
-                        Poll::Ready(Ok(n)) => {
-                            let good = n <= bl
-                                && delivered + n <= accepted
-                                && buf[..n] == stream[delivered..delivered + n];
-                            let pos = if good { delivered as u64 } else { MISMATCH };
-                            delivered += n;
-                            (0, n as u64, pos)
-                        }
-                        Poll::Pending => (1, 0, 0),
-                        Poll::Ready(Err(e)) => (2, err_code(&e), 0),
-                    };
-                    let mut r = [t, x, y, 0, 0, 0, 0, 0, 0, 0, pulled, lp];
-                    for (j, v) in st.iter().enumerate() {
-                        r[3 + j] = *v as u64;
-                    }
-                    rrecs.push(r);
-                }
+    let mut out = header(run.sock[0].as_ref().unwrap(), &b);
+    out.append(&mut run.out);
+    run.out = out;
+    run.sock[1] = Some(b);
+    if cont && run.phase_read(rd0) {
+        for rd in case.rounds.iter().skip(1) {
+            if !run.phase_write(rd) || !run.phase_read(rd) {
+                break;
             }
         }
     }
-    out.push(rrecs.len() as u64);
-    for r in rrecs.iter() {
-        out.extend(r);
-    }
-    Some(out)
+    Some(run.out)
 }
 
 // ------------------------------------------------------------------ generator
 
-fn gen_case(rng: &mut Rng, thorough: bool) -> Vec<u64> {
-    let mfl = VERIF_CONSTS[2] as u64;
-    let msg = VERIF_CONSTS[0] as u64;
-    let f = rng.pick(&[1u64, 1, 1, 2, 2, 3, 5]);
-    let wb = rng.pick(&[1u64, 1, 2, 2, 4]);
-    let m = f * msg;
-    let poll_budget: u64 = if thorough { 1500 } else { 350 };
-    let byte_budget: u64 = if thorough { 900_000 } else { 450_000 };
+fn push_wop(out: &mut Vec<u64>, op: &WOp) {
+    match op {
+        WOp::Write(l) => out.extend([0, *l]),
+        WOp::Flush => out.push(1),
+        WOp::Close => out.push(2),
+        WOp::WriteV(v) => {
+            out.extend([3, v.len() as u64]);
+            out.extend(v);
+        }
+    }
+}
 
-    // writer ops
-    let small = rng.chance(35);
-    let nw = rng.range(1, if small { 10 } else { 6 });
-    let mut wops: Vec<u64> = Vec::new();
-    let mut nops = 0u64;
+/// an I/O error entry: every kind of the table, now and then a code outside it
+fn fault(rng: &mut Rng, zero_ok: bool) -> u64 {
+    let k = match rng.below(10) {
+        0 if zero_ok => 0,
+        1 => rng.pick(&[41u64, 99, 4]),
+        2 | 3 => rng.pick(&[1u64, 2, 3, 5]),
+        _ => KINDS[rng.below(KINDS.len() as u64) as usize].0,
+    };
+    SPECIAL + k
+}
+
+struct GenCfg {
+    mfl: u64,
+    msg: u64,
+    f: u64,
+    poll_budget: u64,
+    byte_budget: u64,
+}
+
+/// writer calls of one phase; returns (ops, bytes offered)
+fn gen_wops(rng: &mut Rng, g: &GenCfg, maxn: u64, small: bool, allow_close: bool) -> (Vec<WOp>, u64) {
+    let mfl = g.mfl;
+    let nw = rng.range(0, maxn);
+    let mut ops = Vec::new();
     let mut total = 0u64;
     for _ in 0..nw {
         let len = if small {
@@ -567,7 +1005,7 @@ fn gen_case(rng: &mut Rng, thorough: bool) -> Vec<u64> {
                 _ => rng.range(60_000, 66_000),
             }
         };
-        if total + len > byte_budget {
+        if total + len > g.byte_budget {
             continue;
         }
         total += len;
@@ -581,33 +1019,35 @@ fn gen_case(rng: &mut Rng, thorough: bool) -> Vec<u64> {
                 _ => vec![0, 0, len],
             };
             total += extra;
-            wops.extend([3, lens.len() as u64]);
-            wops.extend(lens);
+            ops.push(WOp::WriteV(lens));
         } else {
-            wops.extend([0, len]);
+            ops.push(WOp::Write(len));
         }
-        nops += 1;
         if rng.chance(25) {
-            wops.push(1);
-            nops += 1;
+            ops.push(WOp::Flush);
         }
-        if rng.chance(6) {
+        if allow_close && rng.chance(5) {
             // close (possibly early; later calls then hit a closed carrier), sometimes polled twice
             for _ in 0..rng.range(1, 3) {
-                wops.push(2);
-                nops += 1;
+                ops.push(WOp::Close);
             }
         }
         // a big write is usually accepted in part: offer the rest again
-        if len > mfl && rng.chance(60) {
-            wops.extend([0, len]);
-            nops += 1;
+        if len > mfl && rng.chance(60) && total + len <= g.byte_budget {
+            ops.push(WOp::Write(len));
             total += len;
-            wops.push(1);
-            nops += 1;
+            ops.push(WOp::Flush);
         }
     }
-    // writer carrier script
+    if allow_close && rng.chance(10) {
+        for _ in 0..rng.range(1, 3) {
+            ops.push(WOp::Close);
+        }
+    }
+    (ops, total)
+}
+
+fn gen_wsc(rng: &mut Rng) -> Vec<u64> {
     let mut wsc: Vec<u64> = Vec::new();
     match rng.below(4) {
         0 => {}
@@ -626,45 +1066,56 @@ fn gen_case(rng: &mut Rng, thorough: bool) -> Vec<u64> {
             }
         }
     }
-    if rng.chance(15) {
-        for _ in 0..rng.range(1, 3) {
-            wops.push(2);
-            nops += 1;
-        }
-    }
     // carrier faults on the write side: Ok(0) or an I/O error at a random carrier call
     if rng.chance(15) {
         for _ in 0..rng.range(1, 3) {
             let at = rng.below(wsc.len() as u64 + 1) as usize;
-            wsc.insert(at, SPECIAL + rng.pick(&[0u64, 6, 7, 8, 12]));
+            wsc.insert(at, fault(rng, true));
         }
     }
-    let est_frames = total / mfl + nw + 1;
-    // tamper
-    let tamper: [u64; 4] = if rng.chance(55) {
-        [0, 0, 0, 0]
-    } else {
-        let i = rng.below(est_frames.min(8) + 1);
-        match rng.below(6) {
-            0 | 1 => {
-                let j = match rng.below(6) {
-                    0 => 0,
-                    1 => 1,
-                    2 => 2,
-                    3 => rng.range(2, 18),
-                    4 => rng.range(2, 70_000),
-                    _ => rng.range(2, 1100),
-                };
-                [1, i, j, if rng.chance(5) { 0 } else { rng.range(1, 255) }]
-            }
-            2 => [2, i, 0, 0],
-            3 => [3, i, 0, 0],
-            4 => [4, i, 0, 0],
-            _ => [5, rng.below(total + 18 * est_frames + 4), 0, 0],
+    wsc
+}
+
+fn gen_tamper(rng: &mut Rng, est_frames: u64, total: u64) -> [u64; 4] {
+    let i = rng.below(est_frames.min(8) + 1);
+    let j = rng.below(est_frames.min(8) + 2);
+    match rng.below(13) {
+        0 | 1 => {
+            let b = match rng.below(6) {
+                0 => 0,
+                1 => 1,
+                2 => 2,
+                3 => rng.range(2, 18),
+                4 => rng.range(2, 70_000),
+                _ => rng.range(2, 1100),
+            };
+            [1, i, b, if rng.chance(5) { 0 } else { rng.range(1, 255) }]
         }
-    };
-    // reader carrier script
-    let wire_est = total + 18 * est_frames;
+        2 => [2, i, 0, 0],
+        3 => [3, i, 0, 0],
+        4 => [4, i, 0, 0],
+        5 => [5, rng.below(total + 18 * est_frames + 4), 0, 0],
+        6 => [6, i, j, 0],
+        7 => [7, i, j, 0],
+        8 => {
+            let h = rng.pick(&[0u64, 1, 16, 17, 18, 100, 65535, 65536 + 40, 30000]);
+            let bl = match rng.below(4) {
+                0 => h % 65536,
+                1 => 0,
+                2 => rng.range(0, 200),
+                _ => (h % 65536).saturating_sub(1),
+            };
+            [8, i, h, bl]
+        }
+        9 => [9, i, 0, 0],
+        10 => [10, i, 0, 0],
+        11 => [11, i, 0, 0],
+        _ => [0, 0, 0, 0],
+    }
+}
+
+fn gen_rsc(rng: &mut Rng, g: &GenCfg, wire_est: u64, thorough: bool) -> Vec<u64> {
+    let (mfl, msg, m) = (g.mfl, g.msg, g.f.max(1) * g.msg);
     let mut rsc: Vec<u64> = Vec::new();
     let style = rng.below(5);
     let nitems = rng.range(0, if thorough { 400 } else { 120 });
@@ -694,13 +1145,16 @@ fn gen_case(rng: &mut Rng, thorough: bool) -> Vec<u64> {
     if rng.chance(15) {
         for _ in 0..rng.range(1, 3) {
             let at = rng.below(rsc.len().min(30) as u64 + 1) as usize;
-            rsc.insert(at, SPECIAL + rng.pick(&[0u64, 0, 6, 7, 8, 12]));
+            rsc.insert(at, fault(rng, true));
         }
     }
-    // reads
-    let mut reads: Vec<u64> = Vec::new();
-    let mut nreads = 0u64;
-    let mut polls = 0u64;
+    rsc
+}
+
+/// (buffer length, repetitions) pairs of a read phase
+fn gen_reads(rng: &mut Rng, g: &GenCfg, total: u64, est_frames: u64, stalls: u64, polls: &mut u64) -> Vec<(u64, u64)> {
+    let mfl = g.mfl;
+    let mut reads = Vec::new();
     let rstyle = rng.below(4);
     let nr = rng.range(0, 12);
     for _ in 0..nr {
@@ -711,34 +1165,150 @@ fn gen_case(rng: &mut Rng, thorough: bool) -> Vec<u64> {
             _ => rng.range(1, 70_000),
         };
         let rep = rng.range(1, if bl < 100 { 40 } else { 12 });
-        if polls + rep > poll_budget {
+        if *polls + rep > g.poll_budget {
             break;
         }
-        polls += rep;
-        reads.extend([bl, rep]);
-        nreads += 1;
+        *polls += rep;
+        reads.push((bl, rep));
     }
     if !rng.chance(10) {
         // drain until the carrier's EOF (or the error) with a buffer that keeps the trace short
         let bl = rng.pick(&[4096u64, 16384, mfl - 1, mfl, 65520, 70_000]);
         // the socket is polled on after EOF / errors, so a few extra polls exercise the re-poll paths
-        let stalls = rsc.iter().filter(|x| **x == 0 || **x >= SPECIAL).count() as u64;
-        let bl = bl.max(total / poll_budget + 1);
-        let rep = (total / bl.min(mfl) + est_frames + stalls + rng.range(2, 8)).min(poll_budget * 2);
-        reads.extend([bl, rep]);
-        nreads += 1;
+        let bl = bl.max(total / g.poll_budget + 1);
+        let rep = (total / bl.min(mfl) + est_frames + stalls + rng.range(2, 8)).min(g.poll_budget * 2);
+        reads.push((bl, rep));
     }
+    reads
+}
 
-    let mut c = vec![f, wb, nops];
-    c.extend(wops);
+/// the single-round, dialer-writes format (kept: C19 and the stored cases use it)
+fn gen_case_old(rng: &mut Rng, thorough: bool) -> Vec<u64> {
+    let mfl = VERIF_CONSTS[2] as u64;
+    let msg = VERIF_CONSTS[0] as u64;
+    let f = rng.pick(&[1u64, 1, 1, 2, 2, 3, 5]);
+    let wb = rng.pick(&[1u64, 1, 2, 2, 4]);
+    let g = GenCfg { mfl, msg, f, poll_budget: if thorough { 1500 } else { 350 }, byte_budget: if thorough { 900_000 } else { 450_000 } };
+    let small = rng.chance(35);
+    let (wops, total) = gen_wops(rng, &g, if small { 10 } else { 6 }, small, true);
+    let wsc = gen_wsc(rng);
+    let est_frames = total / mfl + wops.len() as u64 + 1;
+    let tamper = if rng.chance(55) { [0, 0, 0, 0] } else { gen_tamper(rng, est_frames, total) };
+    let rsc = gen_rsc(rng, &g, total + 18 * est_frames, thorough);
+    let stalls = rsc.iter().filter(|x| **x == 0 || **x >= SPECIAL).count() as u64;
+    let mut polls = 0;
+    let reads = gen_reads(rng, &g, total, est_frames, stalls, &mut polls);
+    let mut c = vec![f, wb, wops.len() as u64];
+    for o in wops.iter() {
+        push_wop(&mut c, o);
+    }
     c.push(wsc.len() as u64);
     c.extend(wsc);
     c.extend(tamper);
-    c.push(nreads);
-    c.extend(reads);
+    c.push(reads.len() as u64);
+    for (b, r) in reads.iter() {
+        c.extend([*b, *r]);
+    }
     c.push(rsc.len() as u64);
     c.extend(rsc);
     c
+}
+
+/// several rounds in both directions, lists of manipulations, both halves of a socket in use
+fn gen_case_ext(rng: &mut Rng, thorough: bool) -> Vec<u64> {
+    let mfl = VERIF_CONSTS[2] as u64;
+    let msg = VERIF_CONSTS[0] as u64;
+    // a zero read-ahead factor or write-buffer size is outside the property (the oracle says so);
+    // the model is still compared
+    let f = if rng.chance(1) { 0 } else { rng.pick(&[1u64, 1, 1, 2, 2, 3, 5]) };
+    let wb = if rng.chance(1) { 0 } else { rng.pick(&[1u64, 1, 2, 2, 4]) };
+    let nrounds = rng.pick(&[1u64, 1, 2, 2, 3, 4]);
+    let g = GenCfg {
+        mfl,
+        msg,
+        f,
+        poll_budget: (if thorough { 1500 } else { 350 }) / nrounds,
+        byte_budget: (if thorough { 900_000 } else { 450_000 }) / nrounds,
+    };
+    let first_dir = rng.below(2);
+    let early = first_dir == 0 && rng.chance(35);
+    let mut c = vec![EXT_TAG, f, wb, early as u64, nrounds];
+    let mut dir = first_dir;
+    for r in 0..nrounds {
+        if r > 0 && rng.chance(70) {
+            dir = 1 - dir;
+        }
+        let small = rng.chance(40);
+        let closes = rng.chance(30);
+        let (wops, mut total) = gen_wops(rng, &g, if small { 8 } else { 4 }, small, closes);
+        let wsc = if early && r == 0 && rng.chance(50) { Vec::new() } else { gen_wsc(rng) };
+        let est_frames = total / mfl + wops.len() as u64 + 1;
+        let mut tampers: Vec<[u64; 4]> = Vec::new();
+        if !rng.chance(55) {
+            for _ in 0..rng.pick(&[1u64, 1, 1, 2, 3]) {
+                tampers.push(gen_tamper(rng, est_frames, total));
+            }
+        } else if rng.chance(10) {
+            tampers.push([0, 0, 0, 0]);
+        }
+        // what an earlier round left in this direction comes on top
+        total += g.byte_budget / 2;
+        let rsc = gen_rsc(rng, &g, total + 18 * est_frames, thorough);
+        let stalls = rsc.iter().filter(|x| **x == 0 || **x >= SPECIAL).count() as u64;
+        let mut polls = 0;
+        let reads = gen_reads(rng, &g, total, est_frames, stalls, &mut polls);
+        // the schedule: the reads, with calls on the reading socket's writer half in between
+        let cross = rng.chance(45);
+        let (xsmall, xclose) = (rng.chance(60), rng.chance(15));
+        let (xops, _) = if cross { gen_wops(rng, &g, 4, xsmall, xclose) } else { (Vec::new(), 0) };
+        let xsc = if cross { gen_wsc(rng) } else { Vec::new() };
+        let mut sched: Vec<Vec<u64>> = Vec::new();
+        for (b, rep) in reads.iter() {
+            // split a run of equal reads so that writer calls can fall inside it
+            let mut left = *rep;
+            while left > 0 {
+                let k = if cross { rng.range(1, left) } else { left };
+                sched.push(vec![0, *b, k]);
+                left -= k;
+            }
+        }
+        for o in xops.iter() {
+            let at = rng.below(sched.len() as u64 + 1) as usize;
+            let mut v = vec![1u64];
+            push_wop(&mut v, o);
+            sched.insert(at, v);
+        }
+        // keep the relative order of the writer calls as generated (insertion above may permute
+        // them, which is fine: any order is a valid schedule)
+        c.push(dir);
+        c.push(wops.len() as u64);
+        for o in wops.iter() {
+            push_wop(&mut c, o);
+        }
+        c.push(wsc.len() as u64);
+        c.extend(wsc);
+        c.push(tampers.len() as u64);
+        for t in tampers.iter() {
+            c.extend(t);
+        }
+        c.push(sched.len() as u64);
+        for s in sched.iter() {
+            c.extend(s);
+        }
+        c.push(rsc.len() as u64);
+        c.extend(rsc);
+        c.push(xsc.len() as u64);
+        c.extend(xsc);
+    }
+    c
+}
+
+fn gen_case(rng: &mut Rng, thorough: bool) -> Vec<u64> {
+    if rng.chance(30) {
+        gen_case_old(rng, thorough)
+    } else {
+        gen_case_ext(rng, thorough)
+    }
 }
 
 pub fn main(args: &Args) {
